@@ -21,7 +21,9 @@ def child_setup_factory(root, me):
     def setup(env):
         import asyncio
         import builtins
+        import fcntl
         import logging
+        import time
         logging.disable(logging.CRITICAL)
         import ebpfcat.ebpfcat as cat
         import ebpfcat.lock as lockmod
@@ -147,14 +149,44 @@ def child_setup_factory(root, me):
             state["phase"] = "done"
             return None
 
+        class LockProxy:
+            """fcntl for ebpfcat.lock: a blocking exclusive lock request that has to wait reports that to the parent
+            (gate "lock_blocked") before it tries again, whichever locking call the code uses"""
+            def __getattr__(self, name):
+                return getattr(fcntl, name)
+
+            @staticmethod
+            def _acquire(real, fd, op, *a):
+                if not (op & fcntl.LOCK_EX) or (op & fcntl.LOCK_NB):
+                    return real(fd, op, *a)
+                while True:
+                    try:
+                        return real(fd, op | fcntl.LOCK_NB, *a)
+                    except OSError:
+                        gate.hit("lock_blocked")
+                        time.sleep(0.002)
+
+            def lockf(self, fd, op, *a):
+                return self._acquire(fcntl.lockf, fd, op, *a)
+
+            def flock(self, fd, op):
+                return self._acquire(fcntl.flock, fd, op)
+
         def fmmu_new(draws):
             vals = list(draws)
             lockmod.randrange = lambda a, b=None: vals.pop(0) if vals else 500
-            lockmod.os = GatedModule(OsProxy(), gate, ["ftruncate", "write"], "os.")
+            lockmod.os = GatedModule(OsProxy(), gate, ["ftruncate", "write", "pwrite"], "os.")
+            lockmod.fcntl = LockProxy()
             f = lockmod.FMMULock("/run/ebpf/verif0.fmmu")
             holder["fmmu"] = f
             return f.base_addr >> 22
-        return {"start": start, "stop": stop, "fmmu_new": fmmu_new}
+
+        def fmmu_remove():
+            lockmod.os = GatedModule(OsProxy(), gate, ["ftruncate", "write", "pwrite"], "os.")
+            lockmod.fcntl = LockProxy()
+            holder.pop("fmmu").remove()
+            return None
+        return {"start": start, "stop": stop, "fmmu_new": fmmu_new, "fmmu_remove": fmmu_remove}
     return setup
 
 
@@ -171,7 +203,15 @@ class C23(Check):
     known_classes = {"leaver_detaches_fresh_dispatcher": lambda case, o: bool(case.get("_leaver_race"))}
 
     def make_case(self, rng):
-        if rng.random() < 0.25:
+        if rng.random() < 0.12:
+            # an allocation against a removal (or the other way round) touching the same byte of the map; a third
+            # process then asks for the window whose bit a lost update would have cleared / kept
+            byte = rng.randrange(0, 64)
+            bits = rng.sample([i for i in range(8) if byte * 8 + i >= 1], 2)
+            a, b = byte * 8 + bits[0], byte * 8 + bits[1]
+            other = rng.choice([x for x in (3, 77, 200, 509) if x // 8 != byte])
+            return {"kind": "fmmu_rel", "a": a, "b": b, "other": other, "dir": rng.choice(["remove_first", "alloc_first"])}
+        if rng.random() < 0.2:
             k = rng.randint(2, 4)
             return {"kind": "fmmu", "draws": [[rng.choice([1, 7, 7, 300, 511]) for _ in range(3)] + [rng.randint(2, 510)] for _ in range(k)],
                     "creator_gated": rng.random() < 0.7}
@@ -192,7 +232,9 @@ class C23(Check):
 
     def corpus(self):
         return [{"kind": "startstop", "n": 2, "sched": [0] * 5 + [0] * 3 + [1] * 5 + [0] * 2, "draws": [[1], [1]]},
-                {"kind": "fmmu", "draws": [[1, 9], [7, 8], [7, 9]], "creator_gated": True}]
+                {"kind": "fmmu", "draws": [[1, 9], [7, 8], [7, 9]], "creator_gated": True},
+                {"kind": "fmmu_rel", "a": 20, "b": 17, "other": 9, "dir": "remove_first"},
+                {"kind": "fmmu_rel", "a": 1, "b": 7, "other": 300, "dir": "alloc_first"}]
 
     # ---- start / stop
     def run_startstop(self, case):
@@ -327,7 +369,56 @@ class C23(Check):
                 k.close()
             shutil.rmtree(root, ignore_errors=True)
 
+    def run_fmmu_rel(self, case):
+        """A holds window a.  remove_first: A is stopped inside remove() between reading and writing its map byte, B allocates b
+        (same byte) - it has to wait; A finishes; C asks for b.  alloc_first: B is stopped inside its allocation between reading and
+        writing the byte, A removes - it has to wait; B finishes; C asks for a (free again)."""
+        root = tempfile.mkdtemp(prefix="verif_c23_")
+        os.makedirs(root + "/run/ebpf")
+        A, B, C = kids = [Child(child_setup_factory(root, i)) for i in range(3)]
+        a, b, other = case["a"], case["b"], case["other"]
+
+        def val(r):
+            return r[1] if r[0] == "ok" else f"{r}"
+        try:
+            ra = val(A.call("fmmu_new", [a]))
+            if case["dir"] == "remove_first":
+                A.gates(["os.pwrite"])
+                r = A.call("fmmu_remove")
+                inside = r == ("gate", "os.pwrite")
+                B.gates(["lock_blocked"])
+                rb = B.call("fmmu_new", [b, other + 1])
+                waited = rb[0] == "gate"
+                while r[0] == "gate":
+                    r = A.release()
+                while rb[0] == "gate":
+                    rb = B.release()
+                rc = C.call("fmmu_new", [b, other])
+                return {"windows": [ra, val(rb), val(rc)], "running": [1, 2], "waited": waited, "inside": inside, "removed": val(r),
+                        "ops": ["A0", "R0", "A1", "A2"] if waited else ["A0", "A1", "R0", "A2"], "draws": [[a], [b, other + 1], [b, other]]}
+            B.gates(["os.pwrite"])
+            rb = B.call("fmmu_new", [b, other + 1])
+            inside = rb == ("gate", "os.pwrite")
+            A.gates(["lock_blocked"])
+            r = A.call("fmmu_remove")
+            waited = r[0] == "gate"
+            while rb[0] == "gate":
+                rb = B.release()
+            while r[0] == "gate":
+                r = A.release()
+            rc = C.call("fmmu_new", [a, other])
+            return {"windows": [ra, val(rb), val(rc)], "running": [1, 2], "waited": waited, "inside": inside, "removed": val(r),
+                    "ops": ["A0", "A1", "R0", "A2"], "draws": [[a], [b, other + 1], [a, other]]}
+        finally:
+            for k in kids:
+                k.close()
+            shutil.rmtree(root, ignore_errors=True)
+
     def run_impl(self, case):
+        if case["kind"] == "fmmu_rel":
+            o = self.run_fmmu_rel(case)
+            case["_o"] = o
+            return o
         o = self.run_fmmu(case) if case["kind"] == "fmmu" else self.run_startstop(case)
         case["_o"] = o
         return o
@@ -337,18 +428,34 @@ class C23(Check):
         o = case.get("_o")
         if o is None or isinstance(o, Err):
             return None
+        if case["kind"] == "fmmu_rel":
+            ops = [f"OAlloc {cz(int(x[1]))} {clist([cz(d) for d in o['draws'][int(x[1])] + [500]])}" if x[0] == "A" else f"ORelease {cz(int(x[1]))}" for x in o["ops"]]
+            return f"(run_fmmu_ops {clist(ops)})"
         if case["kind"] == "fmmu":
             return f"(run_fmmu {clist([clist([cz(d) for d in case['draws'][q] + [500]]) for q in o['order']])})"
         sched = [f"({cnat(p)}, {cz(drawn)})" for p, what, drawn in o["steps"] if what != "idle"]
         return f"(run {cnat(case['n'])} {clist(sched)})"
 
     def model_value(self, case, o):
+        if case["kind"] == "fmmu_rel":
+            return o["windows"]
         if case["kind"] == "fmmu":
             return [o["windows"][q] for q in o["order"]]
         return [(-1 if o["files"] is None else o["files"]), -1 if o["pin"] is None else o["pin"], -1 if o["att"] is None else o["att"],
                 [[pc, (0 if (e is None or pc == 16) else e), (-1 if (t is None or pc == 16) else t)] for pc, e, t in o["final"]]]
 
     def holds(self, case, o):
+        if case["kind"] == "fmmu_rel":
+            w = o["windows"]
+            if any(not isinstance(x, int) for x in w) or o["removed"] is not None:
+                return f"FMMU lock creation / removal failed: {w} {o['removed']}"
+            if not o["inside"]:
+                return True         # the interrupted operation does not write the map byte where expected: nothing was interleaved
+            run = [w[q] for q in o["running"]]
+            if len(set(run)) != len(run):
+                return (f"two running processes hold the same logical address window: {w} ({case['dir']}: A held {case['a']}, "
+                        f"B allocated {case['b']} {'after waiting for' if o['waited'] else 'WHILE'} the other operation was between reading and writing the map byte)")
+            return True
         if case["kind"] == "fmmu":
             w = o["windows"]
             if any(not isinstance(x, int) for x in w):
@@ -373,13 +480,17 @@ class C23(Check):
 
     def rule(self):
         return ("75% start/stop schedules of 2-3 forked participants: random interleavings (bursts of 1-6 steps) of their gated operations on the lock directory, "
-                "the pinned program table and the attachment, with scripted ethertype draws; 25% concurrent creation of the FMMU lock by 2-4 processes with "
-                "colliding window draws, the creator interrupted right after creating the file; corpus: the leaver / fresh starter race")
+                "the pinned program table and the attachment, with scripted ethertype draws; 18% concurrent creation of the FMMU lock by 2-4 processes with "
+                "colliding window draws, the creator interrupted right after creating the file; 12% an allocation against a removal on the same map byte (one of "
+                "them stopped between reading and writing the byte, the other must wait), then a third process asks for the window in question; "
+                "corpus: the leaver / fresh starter race")
 
     def distribution(self, cases, observed):
-        d = {"startstop": 0, "fmmu": 0, "steps": 0, "joiners": 0}
+        d = {"startstop": 0, "fmmu": 0, "fmmu_rel": 0, "steps": 0, "joiners": 0, "lock_waits": 0}
         for c, o in zip(cases, observed):
             d[c["kind"]] += 1
+            if c["kind"] == "fmmu_rel" and not isinstance(o, Err):
+                d["lock_waits"] += bool(o["waited"])
             if c["kind"] == "startstop" and not isinstance(o, Err):
                 d["steps"] += len(o["steps"])
                 d["joiners"] += sum(1 for st in o["steps"] if st[1] == "open_x")
